@@ -275,7 +275,9 @@ class StageableMixin:
 class TriggerableMixin:
     def trigger(self):
         f, n = self._enter("trigger")
-        return self._status("trigger", f, n, default_delay=self.spec.get("trigger_delay", 0.01))
+        st = self._status("trigger", f, n, default_delay=self.spec.get("trigger_delay", 0.01))
+        self.__dict__.setdefault("_triggers", []).append(st)  # an acquisition is in progress until this status is done
+        return st
 
 
 class StoppableMixin:
@@ -465,6 +467,10 @@ class Detector(_Base, ReadableMixin, ConfigurableMixin, StageableMixin, Triggera
         self._keys = spec.get("keys") or [name]
 
     def _value(self, i):
+        if any(not st._done for st in self.__dict__.get("_triggers", ())):
+            # read while an acquisition is still going on (nobody waited for the trigger): a stale / half-made frame
+            self.sim.probe("detector_read_while_acquiring")
+            return -999.0 - i
         v = float(self.spec.get("base", 1.0)) + i
         for mname, coef in sorted(self.spec.get("coef", {}).items()):
             m = self.world.get(mname)
